@@ -62,7 +62,7 @@ Definition xact_spec (l : log) (idx tid off req : Z) (r : outcome appended) : Pr
     else a_result a = TERM_APPENDER_FAILED /\ a_log a = put_padding l1 idx off tid /\ a_claim a = None.
 
 Section XActs.
-Variables (m : mode) (rv : Z -> Z -> Z) (l : log) (idx tid off : Z).
+Variables (m : mode) (rv : Z -> Z -> list Z -> Z) (l : log) (idx tid off : Z).
 Hypothesis Hl : legal l.
 Hypothesis Ho : 0 <= off <= l_tlen l.
 
@@ -209,7 +209,7 @@ Proof. intros H. inversion H; subst; try discriminate.
   - apply XR_toolong; assumption. Qed.
 
 Section XStep.
-Variables (m : mode) (rv : Z -> Z -> Z) (x : xpub) (n : Z).
+Variables (m : mode) (rv : Z -> Z -> list Z -> Z) (x : xpub) (n : Z).
 Hypothesis Hinv : xpub_inv n x.
 Local Notation l := (xlog x).
 
